@@ -159,7 +159,9 @@ def render(c):
         rpt = "(Some None)"
     else:
         rpt = "(Some (Some %s))" % r_ast(rp["ast"])
-    return "C38Case %s %s %s %s %s" % (cb(c["mode"] == "pretty"), r_expr(c["x"]), toks, rpt, cb(c["struct_ok"]))
+    # the planner can reject a text that sqlparser parsed (operand types of an untyped operator pair): no structural verdict then
+    so = "None" if (c.get("reparse_err") and rp and rp.get("ast")) else "(Some %s)" % cb(c["struct_ok"])
+    return "C38Case %s %s %s %s %s" % (cb(c["mode"] == "pretty"), r_expr(c["x"]), toks, rpt, so)
 
 
 def run(pid, tier, seed, replay):
